@@ -1098,7 +1098,7 @@ Proof.
       assert (Hin : in_use m u c = true) by (unfold in_use; rewrite El; destruct (c_st c); try discriminate; auto).
       assert (Hcw : c_cw c = None).
       { apply no_cw_unless; auto. rewrite Ek. destruct (c_st c); auto; discriminate. }
-      replace (match c_st c with SOpen | SWaitDisconnect => true | _ => false end) with true
+      replace (match c_st c with SOpen | SWaitDisconnect | SOrphan => true | _ => false end) with true
         by (destruct (c_st c); try discriminate; auto).
       apply (inv_closed_gen m _ u c (set_dw (set_st c SClosed) None) O_ERROR O_RESULT true I Hu Hin);
         cbn; auto; try discriminate.
@@ -1111,13 +1111,31 @@ Proof.
       * autorewrite with acc. reflexivity.
       * intros _ K. congruence.
       * intros w. autorewrite with accw. rewrite Hcw. reflexivity.
-    + replace (match c_st c with SOpen | SWaitDisconnect => true | _ => false end) with false
-        by (destruct (c_st c); try discriminate; auto).
-      assert (Hdw : c_dw c = None).
+    + assert (Hdw : c_dw c = None).
       { apply no_dw_unless; auto. rewrite Ek. destruct (c_st c); auto; discriminate. }
       rewrite Hdw. cbn [wres_opt].
-      apply (inv_hupd_fun m u c _ Hu). rewrite (set_same_dw c Hdw).
-      now apply inv_hupd_id.
+      destruct (c_st c) eqn:Es; try discriminate;
+        try (apply (inv_hupd_fun m u c _ Hu); rewrite (set_same_dw c Hdw); now apply inv_hupd_id).
+      (* an orphaned initiator (mode mismatch): WAIT_DISCONNECT -> CLOSED, it is filed nowhere *)
+      assert (Hcw : c_cw c = None) by (apply no_cw_unless; auto; now rewrite Ek, Es).
+      assert (Hnu : in_use m u c = false) by (unfold in_use; rewrite Es; apply andb_false_r).
+      assert (Hle : le_reg c = false) by (unfold le_reg; now rewrite Ek).
+      assert (Ic : Inv (hupd m u (fun _ => set_dw (set_st c SClosed) None))).
+      { apply inv_upd_same with (c := c); cbn; auto.
+        - unfold in_use; cbn. rewrite Es. now rewrite !andb_false_r.
+        - unfold le_reg; cbn. now rewrite Ek.
+        - unfold chan_facts; cbn. rewrite Hcw, Ek.
+          split; [discriminate|split; [discriminate|split; [|split; [auto|reflexivity]]]].
+          intros Hd. destruct (F3 Hd) as (K & _). congruence.
+        - intros E; congruence.
+        - intros K; congruence. }
+      revert Ic. apply inv_ext.
+      * intros u'. autorewrite with acc. destruct (Z.eqb_spec u' u); subst; rewrite ?Hu; reflexivity.
+      * intros w. now autorewrite with acc.
+      * autorewrite with acc. now rewrite (is_uid_chs m u c I Hu), Hnu.
+      * autorewrite with acc. now rewrite (is_uid_le m u c I Hu), Hle.
+      * autorewrite with acc. reflexivity.
+      * autorewrite with acc. reflexivity.
 Qed.
 Lemma chs_with_chs m x : m_chs (with_chs m x) = x. Proof. reflexivity. Qed.
 Lemma chs_with_le m x : m_chs (with_le m x) = m_chs m. Proof. reflexivity. Qed.
@@ -2984,7 +3002,7 @@ Proof.
   destruct (c_kind c).
   - destruct (match c_st c with SConnected | SDisconnecting => true | _ => false end);
       apply (sc_one b (c_conn c) m _ u c); auto; try sc_wait I Hu; try sc_tab; try sc_self Hu.
-  - destruct (match c_st c with SOpen | SWaitDisconnect => true | _ => false end);
+  - destruct (match c_st c with SOpen | SWaitDisconnect | SOrphan => true | _ => false end);
       apply (sc_one b (c_conn c) m _ u c); auto; try sc_wait I Hu; try sc_tab; try sc_self Hu.
 Qed.
 
